@@ -1,8 +1,10 @@
 /-
   C04 — Parsing is total; a component that ignores exceptions (VEVENT) isolates bad lines.
-  `pstep dec st line` is one iteration of the line loop of `Component.from_ical`
+  `pstep tzok dec st line` is one iteration of the line loop of `Component.from_ical`
   (Model/Parse.lean); `prun` is the loop; `none` = a ValueError escapes. `dec` abstracts the
-  typed decoders (`none` = ValueError), so every statement holds for every decoder.
+  typed decoders (`none` = ValueError), so every statement holds for every decoder. `tzok c`
+  abstracts "building / caching the time zone object of the VTIMEZONE `c` does not fail"
+  (`tzp.cache_timezone_component` in the END branch), so every statement holds for every provider.
   Property theorems only; the definitions `PState.eraseErrs` (every `errors` list of every open
   and finished component set to `[]`), `BadPropertyLine`, `errName`, `decodeStep`,
   `PState.topName`, `PState.topErrs` and the helper lemmas are in ICal/Lemmas/Parse.lean.
@@ -34,25 +36,25 @@ theorem lenient_only_vevent (n : Str) : lenientName n = true ↔ n = nVEVENT := 
 
 /-- The step never reads an `errors` list: stepping and then forgetting the error lists is the
     same as forgetting them first. -/
-theorem step_ignores_errors (dec : Dec) (st : PState) (x : Str) :
-    (pstep dec st x).map PState.eraseErrs = (pstep dec st.eraseErrs x).map PState.eraseErrs :=
-  eraseErrs_step dec st x
+theorem step_ignores_errors (tzok : Comp → Bool) (dec : Dec) (st : PState) (x : Str) :
+    (pstep tzok dec st x).map PState.eraseErrs = (pstep tzok dec st.eraseErrs x).map PState.eraseErrs :=
+  eraseErrs_step tzok dec st x
 
 /-- The same for the whole loop. -/
-theorem run_ignores_errors (dec : Dec) (st : PState) (ls : List Str) :
-    (prun dec st ls).map PState.eraseErrs = (prun dec st.eraseErrs ls).map PState.eraseErrs :=
-  prun_eraseErrs dec st ls
+theorem run_ignores_errors (tzok : Comp → Bool) (dec : Dec) (st : PState) (ls : List Str) :
+    (prun tzok dec st ls).map PState.eraseErrs = (prun tzok dec st.eraseErrs ls).map PState.eraseErrs :=
+  prun_eraseErrs tzok dec st ls
 
 /-- A bad line inside a lenient component: the step succeeds, nothing changes except the error
     lists, and exactly one entry (the upper-cased property name, "" for an unparseable line) is
     appended to the `errors` of the innermost open component. -/
-theorem lenient_step (dec : Dec) (st : PState) (l : Str) (hbad : BadPropertyLine dec st l)
+theorem lenient_step (tzok : Comp → Bool) (dec : Dec) (st : PState) (l : Str) (hbad : BadPropertyLine dec st l)
     (hl : lenientName st.topName = true) (hs : st.stopped = false) :
-    ∃ st', pstep dec st l = some st' ∧ st'.eraseErrs = st.eraseErrs ∧
+    ∃ st', pstep tzok dec st l = some st' ∧ st'.eraseErrs = st.eraseErrs ∧
       st' = logToTop st (errName l) ∧ st'.topErrs = st.topErrs ++ [errName l] ∧
       st'.stopped = false := by
   refine ⟨logToTop st (errName l), ?_, eraseErrs_logToTop st _, rfl, topErrs_logToTop st _ hbad.2.1, ?_⟩
-  · rw [pstep_bad dec st l hbad hs, if_pos hl]
+  · rw [pstep_bad tzok dec st l hbad hs, if_pos hl]
   · rcases st with ⟨stack, comps, stopped⟩
     rcases stack with _ | ⟨⟨n, p, s, e⟩, r⟩ <;> exact hs
 
@@ -60,39 +62,39 @@ theorem lenient_step (dec : Dec) (st : PState) (l : Str) (hbad : BadPropertyLine
     lists — parsing the remaining lines `post` gives the same stack and the same finished
     components (every property, every subcomponent) as if the line were absent, and fails iff it
     fails without the line. -/
-theorem vevent_isolation (dec : Dec) (st : PState) (l : Str) (post : List Str)
+theorem vevent_isolation (tzok : Comp → Bool) (dec : Dec) (st : PState) (l : Str) (post : List Str)
     (hbad : BadPropertyLine dec st l) (hl : lenientName st.topName = true) (hs : st.stopped = false) :
-    (prun dec st (l :: post)).map PState.eraseErrs = (prun dec st post).map PState.eraseErrs := by
-  obtain ⟨st', h1, h2, _⟩ := lenient_step dec st l hbad hl hs
-  rw [prun_of_step_some dec st st' l post h1]
-  exact prun_eraseErrs_congr dec post st' st h2
+    (prun tzok dec st (l :: post)).map PState.eraseErrs = (prun tzok dec st post).map PState.eraseErrs := by
+  obtain ⟨st', h1, h2, _⟩ := lenient_step tzok dec st l hbad hl hs
+  rw [prun_of_step_some tzok dec st st' l post h1]
+  exact prun_eraseErrs_congr tzok dec post st' st h2
 
 /-- The same from the start of the input: `pre ++ [l] ++ post` against `pre ++ post`. -/
-theorem vevent_isolation_parse (dec : Dec) (pre post : List Str) (l : Str) (st : PState)
-    (hpre : prun dec PState.init pre = some st)
+theorem vevent_isolation_parse (tzok : Comp → Bool) (dec : Dec) (pre post : List Str) (l : Str) (st : PState)
+    (hpre : prun tzok dec PState.init pre = some st)
     (hbad : BadPropertyLine dec st l) (hl : lenientName st.topName = true) (hs : st.stopped = false) :
-    (prun dec PState.init (pre ++ l :: post)).map PState.eraseErrs =
-      (prun dec PState.init (pre ++ post)).map PState.eraseErrs := by
+    (prun tzok dec PState.init (pre ++ l :: post)).map PState.eraseErrs =
+      (prun tzok dec PState.init (pre ++ post)).map PState.eraseErrs := by
   rw [prun_append, prun_append, hpre]
-  exact vevent_isolation dec st l post hbad hl hs
+  exact vevent_isolation tzok dec st l post hbad hl hs
 
 /-- The trees returned are equal: `from_ical` of the input with the bad line and of the input
     without it give the same components once the error lists are dropped (`PComp.toComps`
     forgets them), for both values of `multiple`. -/
-theorem vevent_isolation_trees (dec : Dec) (multiple : Bool) (pre post : List Str) (l : Str) (st : PState)
-    (hpre : prun dec PState.init pre = some st)
+theorem vevent_isolation_trees (tzok : Comp → Bool) (dec : Dec) (multiple : Bool) (pre post : List Str) (l : Str) (st : PState)
+    (hpre : prun tzok dec PState.init pre = some st)
     (hbad : BadPropertyLine dec st l) (hl : lenientName st.topName = true) (hs : st.stopped = false) :
-    (parseLines dec multiple (pre ++ l :: post)).map Prod.fst =
-      (parseLines dec multiple (pre ++ post)).map Prod.fst := by
-  have h := vevent_isolation_parse dec pre post l st hpre hbad hl hs
+    (parseLines tzok dec multiple (pre ++ l :: post)).map Prod.fst =
+      (parseLines tzok dec multiple (pre ++ post)).map Prod.fst := by
+  have h := vevent_isolation_parse tzok dec pre post l st hpre hbad hl hs
   unfold parseLines parseLinesP
-  cases h1 : prun dec PState.init (pre ++ l :: post) with
+  cases h1 : prun tzok dec PState.init (pre ++ l :: post) with
   | none =>
-    cases h2 : prun dec PState.init (pre ++ post) with
+    cases h2 : prun tzok dec PState.init (pre ++ post) with
     | none => rfl
     | some b => rw [h1, h2] at h; simp at h
   | some a =>
-    cases h2 : prun dec PState.init (pre ++ post) with
+    cases h2 : prun tzok dec PState.init (pre ++ post) with
     | none => rw [h1, h2] at h; simp at h
     | some b =>
       rw [h1, h2] at h
@@ -109,58 +111,58 @@ theorem vevent_isolation_trees (dec : Dec) (multiple : Bool) (pre post : List St
       · simp [ht]
 
 /-- Outside a lenient component the same line makes `from_ical` raise. -/
-theorem strict_fails (dec : Dec) (st : PState) (l : Str) (post : List Str)
+theorem strict_fails (tzok : Comp → Bool) (dec : Dec) (st : PState) (l : Str) (post : List Str)
     (hbad : BadPropertyLine dec st l) (hl : lenientName st.topName = false) (hs : st.stopped = false) :
-    prun dec st (l :: post) = none := by
+    prun tzok dec st (l :: post) = none := by
   apply prun_of_step_none
-  rw [pstep_bad dec st l hbad hs, hl]
+  rw [pstep_bad tzok dec st l hbad hs, hl]
   rfl
 
 /-- ... whatever precedes and follows it. -/
-theorem strict_fails_parse (dec : Dec) (multiple : Bool) (pre post : List Str) (l : Str) (st : PState)
-    (hpre : prun dec PState.init pre = some st)
+theorem strict_fails_parse (tzok : Comp → Bool) (dec : Dec) (multiple : Bool) (pre post : List Str) (l : Str) (st : PState)
+    (hpre : prun tzok dec PState.init pre = some st)
     (hbad : BadPropertyLine dec st l) (hl : lenientName st.topName = false) (hs : st.stopped = false) :
-    parseLines dec multiple (pre ++ l :: post) = none := by
+    parseLines tzok dec multiple (pre ++ l :: post) = none := by
   unfold parseLines parseLinesP
   rw [prun_append, hpre]
-  simp [strict_fails dec st l post hbad hl hs]
+  simp [strict_fails tzok dec st l post hbad hl hs]
 
 /-- A property line outside every component raises, unless it is X-COMMENT (which ends the loop). -/
-theorem orphan_property_fails (dec : Dec) (st : PState) (l name : Str) (params : Params) (vals : Str)
+theorem orphan_property_fails (tzok : Comp → Bool) (dec : Dec) (st : PState) (l name : Str) (params : Params) (vals : Str)
     (post : List Str) (hs : st.stopped = false) (hst : st.stack = []) (hl : l ≠ [])
     (hp : parts l = some (name, params, vals))
     (hb : upper name ≠ nBEGIN) (he : upper name ≠ nEND) (hx : upper name ≠ nXCOMMENT) :
-    prun dec st (l :: post) = none := by
+    prun tzok dec st (l :: post) = none := by
   apply prun_of_step_none
-  rw [pstep_orphan dec st l name params vals hs hl hp hb he hst, if_neg]
+  rw [pstep_orphan tzok dec st l name params vals hs hl hp hb he hst, if_neg]
   simpa using hx
 
 /-- An unparseable line outside every component raises. -/
-theorem orphan_garbage_fails (dec : Dec) (st : PState) (l : Str) (post : List Str)
+theorem orphan_garbage_fails (tzok : Comp → Bool) (dec : Dec) (st : PState) (l : Str) (post : List Str)
     (hs : st.stopped = false) (hst : st.stack = []) (hl : l ≠ []) (hp : parts l = none) :
-    prun dec st (l :: post) = none := by
+    prun tzok dec st (l :: post) = none := by
   apply prun_of_step_none
-  rw [pstep_noparts dec st l hs hl hp, hst]
+  rw [pstep_noparts tzok dec st l hs hl hp, hst]
 
 /-- `END` with no open component raises. -/
-theorem end_without_begin_fails (dec : Dec) (st : PState) (l name : Str) (params : Params) (vals : Str)
+theorem end_without_begin_fails (tzok : Comp → Bool) (dec : Dec) (st : PState) (l name : Str) (params : Params) (vals : Str)
     (post : List Str) (hs : st.stopped = false) (hst : st.stack = []) (hl : l ≠ [])
     (hp : parts l = some (name, params, vals)) (he : upper name = nEND) :
-    prun dec st (l :: post) = none := by
+    prun tzok dec st (l :: post) = none := by
   apply prun_of_step_none
-  rw [pstep_end dec st l name params vals hs hl hp he, hst]
+  rw [pstep_end tzok dec st l name params vals hs hl hp he, hst]
 
 /-- After a top-level X-COMMENT (`break`) and for blank lines nothing happens. -/
-theorem skipped_lines (dec : Dec) (st : PState) (l : Str) (h : st.stopped = true ∨ l = []) :
-    pstep dec st l = some st := by
+theorem skipped_lines (tzok : Comp → Bool) (dec : Dec) (st : PState) (l : Str) (h : st.stopped = true ∨ l = []) :
+    pstep tzok dec st l = some st := by
   apply pstep_skip
   rcases h with h | h <;> simp [h]
 
 /-- `multiple=False` returns exactly one component or raises. -/
-theorem single_requires_one (dec : Dec) (ls : List Str) (cs : List PComp)
-    (h : parseLinesP dec false ls = some cs) : cs.length = 1 := by
+theorem single_requires_one (tzok : Comp → Bool) (dec : Dec) (ls : List Str) (cs : List PComp)
+    (h : parseLinesP tzok dec false ls = some cs) : cs.length = 1 := by
   unfold parseLinesP at h
-  cases hp : prun dec PState.init ls with
+  cases hp : prun tzok dec PState.init ls with
   | none => rw [hp] at h; simp at h
   | some st =>
     rw [hp] at h
@@ -171,62 +173,96 @@ theorem single_requires_one (dec : Dec) (ls : List Str) (cs : List PComp)
 
 /-- Error inventory of the model: the only failure of the loop is `none` (= ValueError), and a
     failing run has a first failing line — one of the cases above. -/
-theorem failure_has_first_line (dec : Dec) (ls : List Str) (st : PState) (h : prun dec st ls = none) :
-    ∃ pre l post st', ls = pre ++ l :: post ∧ prun dec st pre = some st' ∧ pstep dec st' l = none := by
+theorem failure_has_first_line (tzok : Comp → Bool) (dec : Dec) (ls : List Str) (st : PState) (h : prun tzok dec st ls = none) :
+    ∃ pre l post st', ls = pre ++ l :: post ∧ prun tzok dec st pre = some st' ∧ pstep tzok dec st' l = none := by
   induction ls generalizing st with
   | nil => simp [prun] at h
   | cons l ls ih =>
-    cases hp : pstep dec st l with
+    cases hp : pstep tzok dec st l with
     | none => exact ⟨[], l, ls, st, rfl, rfl, hp⟩
     | some st1 =>
-      rw [prun_of_step_some dec st st1 l ls hp] at h
+      rw [prun_of_step_some tzok dec st st1 l ls hp] at h
       obtain ⟨pre, l', post, st', e, h1, h2⟩ := ih st1 h
       refine ⟨l :: pre, l', post, st', by rw [e]; rfl, ?_, h2⟩
-      rw [prun_of_step_some dec st st1 l pre hp, h1]
+      rw [prun_of_step_some tzok dec st st1 l pre hp, h1]
+
+/-- `END:VTIMEZONE` closing a VTIMEZONE that has a TZID whose time zone object cannot be built
+    (`tzok` false: `cache_timezone_component` raises, re-raised as ValueError "Invalid VTIMEZONE"). -/
+theorem bad_vtimezone_fails (tzok : Comp → Bool) (dec : Dec) (st : PState) (l name : Str) (params : Params)
+    (vals : Str) (c : PComp) (rest : List PComp) (post : List Str)
+    (hs : st.stopped = false) (hst : st.stack = c :: rest) (hl : l ≠ [])
+    (hp : parts l = some (name, params, vals)) (he : upper name = nEND)
+    (htz : tzFails tzok (upper vals) c = true) :
+    prun tzok dec st (l :: post) = none := by
+  apply prun_of_step_none
+  rw [pstep_end tzok dec st l name params vals hs hl hp he, hst]
+  simp [htz]
+
+/-- What `tzFails` says: the END value is VTIMEZONE, the closed component is a VTIMEZONE with a
+    TZID entry, and `tzok` is false of it. -/
+theorem tzFails_iff (tzok : Comp → Bool) (en n : Str) (props : List Entry) (subs : List PComp) (errs : List Str) :
+    tzFails tzok en (.mk n props subs errs) = true ↔
+      en = nVTIMEZONE ∧ n = nVTIMEZONE ∧ (∃ e ∈ props, e.name = nTZID) ∧
+      tzok (.mk n props (PComp.toComps subs)) = false := by
+  simp [tzFails, PComp.toComp, nVTIMEZONE, nTZID, and_assoc]
+
+/-- With `tzok` constantly true (every time zone can be built) an END line never fails on an open
+    component. -/
+theorem tzFails_of_ok (en : Str) (c : PComp) : tzFails (fun _ => true) en c = false := by
+  obtain ⟨n, p, s, e⟩ := c
+  simp [tzFails]
 
 /-- A failing step is one of: unparseable line / failed decoding in a strict component
-    (`BadPropertyLine`), or a line outside every component that is not BEGIN or X-COMMENT. -/
-theorem step_failure_cases (dec : Dec) (st : PState) (l : Str) (h : pstep dec st l = none) :
+    (`BadPropertyLine`); a line outside every component that is not BEGIN or X-COMMENT; or the END
+    of a VTIMEZONE with TZID whose time zone cannot be built. -/
+theorem step_failure_cases (tzok : Comp → Bool) (dec : Dec) (st : PState) (l : Str) (h : pstep tzok dec st l = none) :
     (BadPropertyLine dec st l ∧ lenientName st.topName = false) ∨
     (st.stack = [] ∧ l ≠ [] ∧ ∀ name params vals, parts l = some (name, params, vals) →
-        upper name ≠ nBEGIN ∧ upper name ≠ nXCOMMENT) := by
+        upper name ≠ nBEGIN ∧ upper name ≠ nXCOMMENT) ∨
+    (∃ c rest name params vals, st.stack = c :: rest ∧ parts l = some (name, params, vals) ∧
+        upper name = nEND ∧ tzFails tzok (upper vals) c = true) := by
   by_cases hskip : (st.stopped || l.isEmpty) = true
-  · rw [pstep_skip dec st l hskip] at h; simp at h
+  · rw [pstep_skip tzok dec st l hskip] at h; simp at h
   · have hs : st.stopped = false := by
       cases h' : st.stopped <;> simp [h'] at hskip ⊢
     have hl : l ≠ [] := by
       intro h'; subst h'; simp at hskip
     cases hst : st.stack with
     | nil =>
-      right
+      right; left
       refine ⟨rfl, hl, ?_⟩
       intro name params vals hp
       constructor
       · intro hb
-        rw [pstep_begin dec st l name params vals hs hl hp hb] at h; simp at h
+        rw [pstep_begin tzok dec st l name params vals hs hl hp hb] at h; simp at h
       · intro hx
         have hb : upper name ≠ nBEGIN := by rw [hx]; decide
         have he : upper name ≠ nEND := by rw [hx]; decide
-        rw [pstep_orphan dec st l name params vals hs hl hp hb he hst, if_pos (by simp [hx])] at h
+        rw [pstep_orphan tzok dec st l name params vals hs hl hp hb he hst, if_pos (by simp [hx])] at h
         simp at h
     | cons c r =>
-      left
-      obtain ⟨n, p, s, e⟩ := c
       have hne : st.stack ≠ [] := by rw [hst]; simp
       cases hp : parts l with
       | none =>
+        left
         have hbad : BadPropertyLine dec st l := ⟨hl, hne, Or.inl hp⟩
         refine ⟨hbad, ?_⟩
-        rw [pstep_bad dec st l hbad hs] at h
+        rw [pstep_bad tzok dec st l hbad hs] at h
         cases hlen : lenientName st.topName <;> simp [hlen] at h ⊢
       | some t =>
         obtain ⟨name, params, vals⟩ := t
         by_cases hb : upper name = nBEGIN
-        · rw [pstep_begin dec st l name params vals hs hl hp hb] at h; simp at h
+        · rw [pstep_begin tzok dec st l name params vals hs hl hp hb] at h; simp at h
         · by_cases he : upper name = nEND
-          · rw [pstep_end dec st l name params vals hs hl hp he, hst] at h
-            rcases r with _ | ⟨⟨n', p', s', e'⟩, r'⟩ <;> simp at h
-          · rw [pstep_prop dec st l name params vals n p s e r hs hl hp hb he hst] at h
+          · right; right
+            rw [pstep_end tzok dec st l name params vals hs hl hp he, hst] at h
+            refine ⟨c, r, name, params, vals, rfl, rfl, he, ?_⟩
+            cases htz : tzFails tzok (upper vals) c
+            · simp [htz] at h
+            · rfl
+          · left
+            obtain ⟨n, p, s, e⟩ := c
+            rw [pstep_prop tzok dec st l name params vals n p s e r hs hl hp hb he hst] at h
             cases hd : decodeStep dec l name params vals with
             | none =>
               have hbad : BadPropertyLine dec st l :=
@@ -248,13 +284,18 @@ private def inEvent : PState := ⟨[.mk nVEVENT [] [] []], [], false⟩
 private def inTodo : PState := ⟨[.mk ['V','T','O','D','O'] [] [] []], [], false⟩
 private def lBad : Str := ['D','T','S','T','A','R','T',':','x']
 
-example : prun decNone PState.init [['B','E','G','I','N',':','V','E','V','E','N','T']] = some inEvent := by rfl
+example : prun (fun _ => true) decNone PState.init [['B','E','G','I','N',':','V','E','V','E','N','T']] = some inEvent := by rfl
 example : BadPropertyLine decNone inEvent lBad :=
   ⟨by decide, by decide, Or.inr ⟨['D','T','S','T','A','R','T'], [], ['x'], by decide, by decide, by decide, by decide⟩⟩
 example : BadPropertyLine decNone inEvent [':','x'] := ⟨by decide, by decide, Or.inl (by decide)⟩
 example : lenientName inEvent.topName = true ∧ inEvent.stopped = false := by decide
 example : lenientName inTodo.topName = false ∧ inTodo.stopped = false := by decide
-example : pstep decNone inEvent lBad = some ⟨[.mk nVEVENT [] [] [['D','T','S','T','A','R','T']]], [], false⟩ := by rfl
-example : pstep decNone inTodo lBad = none := by decide
+example : pstep (fun _ => true) decNone inEvent lBad = some ⟨[.mk nVEVENT [] [] [['D','T','S','T','A','R','T']]], [], false⟩ := by rfl
+example : pstep (fun _ => true) decNone inTodo lBad = none := by decide
+
+/-- the third failure class is inhabited: `END:VTIMEZONE` on a VTIMEZONE with TZID, `tzok` false -/
+example : prun (fun _ => false) decNone
+    ⟨[.mk nVTIMEZONE [⟨nTZID, false, [⟨['v','T','e','x','t'], ['X'], []⟩]⟩] [] []], [], false⟩
+    [['E','N','D',':','V','T','I','M','E','Z','O','N','E']] = none := by decide
 
 end ICal.C04
